@@ -61,7 +61,14 @@ def gen_flowir_package(rr, idx):
         doc['variables']['px'] = {'global': {'g1': 'uno'}, 'stages': {0: {'s0v': 'cero'}}}
         doc['environments']['px'] = {'env1': {'FOO': 'barx'}}
     ncomp = rr.randint(2, 5)
+    fan_in = rr.random() < 0.2  # an aggregating component over two replicated producers
+    if fan_in:
+        ncomp = max(ncomp, 3)
     names = ['alpha', 'beta', 'gamma', 'delta', 'eps']
+    if rr.random() < 0.4:
+        # names that contain one another: references are rewritten textually when producers are replicated
+        names = ['proc', 'postproc', 'preproc', 'subproc', 'eps']
+        rr.shuffle(names)
     nstages = rr.choice([1, 2])
     replicated = {}
     for i in range(ncomp):
@@ -77,11 +84,23 @@ def gen_flowir_package(rr, idx):
         prods = [p for p in doc['components'] if p['stage'] <= stage]
         refs = []
         for p in rr.sample(prods, min(len(prods), rr.choice([0, 1, 2]))):
-            r = ('%s:ref' % p['name']) if p['stage'] == stage else ('stage%d.%s:ref' % (p['stage'], p['name']))
+            r = ('%s:ref' % p['name']) if (p['stage'] == stage and rr.random() < 0.7) else ('stage%d.%s:ref' % (p['stage'], p['name']))
             refs.append(r)
+        if fan_in and i < 2:
+            refs = []
+        if fan_in and i == 2:
+            refs = [('%s:ref' % p['name']) if rr.random() < 0.5 else ('stage0.%s:ref' % p['name'])
+                    for p in doc['components'][:2]]
+            rr.shuffle(refs)
         in_repl = any(replicated.get(r.split(':')[0].split('.')[-1]) for r in refs)
         wa = {}
-        if not refs and rr.random() < 0.4:
+        if fan_in and i < 2:
+            wa['replicate'] = 2
+            in_repl = True
+        elif fan_in and i == 2:
+            wa['aggregate'] = True
+            in_repl = False
+        elif not refs and rr.random() < 0.4:
             wa['replicate'] = 2
             in_repl = True
         elif in_repl and rr.random() < 0.5:
